@@ -35,6 +35,7 @@
 #include "stir/DynamicDiscretisedDensity.h"
 #include "stir/modelling/ParametricDiscretisedDensity.h"
 #include "stir/ExamInfo.h"
+#include "stir/Radionuclide.h"
 #include "stir/TimeFrameDefinitions.h"
 #include "stir/ImagingModality.h"
 #include "stir/PatientPosition.h"
@@ -47,6 +48,8 @@
 #include <poll.h>
 #include <fcntl.h>
 #include <memory>
+#include <set>
+#include <map>
 
 using namespace vf;
 using namespace stir;
@@ -63,9 +66,11 @@ enum HKind
   H_SPECT,
   H_SIEMENS,
   H_MULTI,
+  H_SIEMENS_LM, // Siemens list-mode header (InterfileListmodeHeaderSiemens): read through the header class, there is no reader function in the anchors
   H_NKINDS
 };
-const char* const KIND_NAME[] = { "image", "dynamic image", "parametric image", "projdata PET", "projdata PET TOF", "projdata SPECT", "projdata Siemens", "multi header" };
+const char* const KIND_NAME[] = { "image", "dynamic image", "parametric image", "projdata PET", "projdata PET TOF", "projdata SPECT", "projdata Siemens", "multi header",
+                                  "listmode Siemens" };
 
 enum Target
 {
@@ -167,6 +172,7 @@ gen_pdfs_spec(Src& s, int kind)
       p["arccorr"] = true;
       p["tof_mash"] = 0;
       p["trim"] = json::object();
+      p["radii"] = s.coin(); // non-circular orbit: the header gets a "Radii" list with one entry per view
       j["pdi"] = p;
     }
   else
@@ -201,6 +207,8 @@ make_exam(const json& e, bool spect)
       x->set_low_energy_thres(430.F);
       x->set_high_energy_thres(610.F);
     }
+  if (e.value("nuclide", 0) == 1 && !spect)
+    x->set_radionuclide(Radionuclide("^18^Fluorine", 511.F, 0.9673F, 6584.04F, ImagingModality(ImagingModality::PT)));
   x->patient_position.set_orientation(static_cast<PatientPosition::OrientationValue>(e["orientation"].get<int>()));
   x->patient_position.set_rotation(static_cast<PatientPosition::RotationValue>(e["rotation"].get<int>()));
   return x;
@@ -298,6 +306,77 @@ total prompts:=266376759
 END OF INTERFILE :=
 )";
 
+// the Siemens list-mode sample header of the distribution (examples/samples/mMR_listmode.l.hdr), data file name replaced
+const char* const SIEMENS_LM_TEMPLATE = R"(!INTERFILE:=
+!originating system:=2008
+%SMS-MI header name space:=PETLINK bin address
+%SMS-MI version number:=3.4
+
+!GENERAL DATA:=
+!data offset in bytes:=0
+name of data file:=d.s
+
+!GENERAL IMAGE DATA:=
+!type of data:=PET
+%study date (yyyy:mm:dd):=2017:03:27
+%study time (hh:mm:ss GMT+00:00):=17:00:35
+isotope name:=F-18
+isotope gamma halflife (sec):=6586.2
+isotope branching factor:=0.97
+radiopharmaceutical:=FDG
+relative time of tracer injection (sec):=0
+tracer activity at time of injection (Bq):=4.65e+007
+injected volume (ml):=0
+%tracer injection date (yyyy:mm:dd):=2017:03:27
+%tracer injection time (hh:mm:ss GMT+00:00):=16:07:00
+%patient orientation:=HFS
+PET data type:=Emission
+data format:=CoincidenceList
+horizontal bed translation:=stepped
+start horizontal bed position (mm):=0
+end horizontal bed position (mm):=0
+start vertical bed position (mm):=0
+%bed zero offset (mm):=0
+number of energy windows:=1
+%energy window lower level (keV) [1]:=430
+%energy window upper level (keV) [1]:=610
+
+!PET STUDY (Emission data):=
+PET scanner type:=cylindrical
+transaxial FOV diameter (cm):=59.6
+number of rings:=64
+distance between rings (cm):=0.40625
+gantry tilt angle (degrees):=0
+gantry crystal radius (cm):=32.8
+bin size (cm):=0.20445
+septa state:=none
+%number of TOF time bins:=1
+%TOF mashing factor:=1
+
+!IMAGE DATA DESCRIPTION:=
+%preset type:=time
+%preset value:=900
+%preset unit:=seconds
+image duration (sec):=900
+%total listmode word counts:=331257106
+
+%COINCIDENCE LIST DATA:=
+%LM event and tag words format (bits):=32
+%timing tagwords interval (msec):=1
+%singles polling method:=instantaneous
+%singles polling interval (sec):=2
+%singles scale factor:=8
+%total number of singles blocks:=224
+%axial compression:=1
+%maximum ring difference:=60
+%number of projections:=344
+%number of views:=252
+%number of segments:=121
+%segment table:={64, 63, 63, 62, 62, 61, 61, 60, 60, 59, 59, 58, 58, 57, 57, 56, 56, 55, 55, 54, 54, 53, 53, 52, 52, 51, 51, 50, 50, 49, 49, 48, 48, 47, 47, 46, 46, 45, 45, 44, 44, 43, 43, 42, 42, 41, 41, 40, 40, 39, 39, 38, 38, 37, 37, 36, 36, 35, 35, 34, 34, 33, 33, 32, 32, 31, 31, 30, 30, 29, 29, 28, 28, 27, 27, 26, 26, 25, 25, 24, 24, 23, 23, 22, 22, 21, 21, 20, 20, 19, 19, 18, 18, 17, 17, 16, 16, 15, 15, 14, 14, 13, 13, 12, 12, 11, 11, 10, 10, 9, 9, 8, 8, 7, 7, 6, 6, 5, 5, 4, 4}
+%time_sync:=25934299
+%comment:=PET/CT gantry offset during PET acquisition was x=0.000000mm, y=0.000000mm, z=0.000000mm
+)";
+
 // ---------------------------------------------------------------------------------------------------
 // base header text (written by the library) + what the writer was told
 struct Base
@@ -370,6 +449,14 @@ make_base(int kind, const json& spec)
       auto scanner = vg::make_scanner(spec["scanner"]);
       auto pdi = vg::make_pdi(scanner, spec["pdi"]);
       auto exam = make_exam(spec["exam"], kind == H_SPECT);
+      if (kind == H_SPECT && spec["pdi"].value("radii", false))
+        if (auto* cyl = dynamic_cast<ProjDataInfoCylindrical*>(pdi.get()))
+          {
+            VectorWithOffset<float> r = cyl->get_ring_radii_for_all_views();
+            for (int i = r.get_min_index(); i <= r.get_max_index(); ++i)
+              r[i] += float(1 + (i % 3)); // mm
+            cyl->set_ring_radii_for_all_views(r);
+          }
       const NType nt = NTYPES[spec["ntype"].get<int>() % 4];
       // segment order in the stream: a permutation derived from the seed
       std::vector<int> seq;
@@ -399,6 +486,15 @@ make_base(int kind, const json& spec)
       b.data_name = "d.s";
       b.elements = long(pdi->size_all());
       b.bytes = nt.bytes;
+      return b;
+    }
+  if (kind == H_SIEMENS_LM)
+    {
+      b.text = SIEMENS_LM_TEMPLATE;
+      b.ext = "hs";
+      b.data_name = "d.s";
+      b.elements = 0;
+      b.bytes = 4;
       return b;
     }
   if (kind == H_SIEMENS)
@@ -579,6 +675,335 @@ unparts(const LineParts& p)
   return p.key + (p.has_index ? "[" + p.index + "]" : "") + ":=" + p.rest;
 }
 
+// ---------------------------------------------------------------------------------------------------
+// list-length mutations (operation 12): ONE list-valued key or ONE family of vectorised keys "key[1..n]" of the header is
+// made shorter by k, longer by k or empty, while every other line stays as the library wrote it.  The keys are the ones whose
+// length has to agree with a count keyword or with sibling lists:
+//   InterfilePDFSHeader::post_processing  min/max ring difference per segment and the axial "matrix size" list vs. the number of
+//                                         segments ("per-segment information is inconsistent"), "TOF bin order" vs. the number of
+//                                         TOF bins ("Inconsistent number of TOF bins ... and size of the 'TOF bin order' list")
+//   InterfileHeader::post_processing      "image scaling factor[f]" list: 1 or (last matrix size) entries ("wrong number of image
+//                                         scaling factors"); every "matrix size[d]" needs >= 1 entry
+//   InterfileImageHeader::post_processing every matrix size list has exactly 1 entry ("homogeneous dimensions")
+//   InterfilePDFSHeaderSPECT              "radii" vs. "number of projections" for non-circular orbits
+//   InterfileRawDataHeaderSiemens         "%segment table" vs. "%number of segments"
+//   KeyParser assign_to_list              key[i] with i above the size given by the count keyword is an error()
+//                                         (number of dimensions / time frames / energy windows / image data types / scan data types /
+//                                          %number of buckets / total number of data sets)
+const int NOPS = 13;
+const int OP_LIST_LENGTH = 12;
+enum ListMode
+{
+  LM_SHORTER,
+  LM_LONGER,
+  LM_EMPTY,
+  LM_SAME,
+  LM_NMODES
+};
+const char* const LIST_MODE_NAME[] = { "shorter", "longer", "empty", "same length" };
+struct ListFamily
+{
+  const char* name; // name in the statistics
+  const char* key;  // standardised keyword
+  char type;        // 'V' family of vectorised keys key[1..n]; 'L' value list {..}; 'S' single value of a list-typed key made a list;
+                    // 'T' "TOF bin order" (inserted when absent); 'F' value list of "image scaling factor[1]" (inserted when absent)
+};
+const ListFamily LIST_FAMILIES[] = {
+  { "minimum ring difference per segment {..}", "minimum ring difference per segment", 'L' }, // 0
+  { "maximum ring difference per segment {..}", "maximum ring difference per segment", 'L' }, // 1
+  { "matrix size[axial] {..}", "matrix size", 'L' },                                           // 2
+  { "applied corrections {..}", "applied corrections", 'L' },                                 // 3
+  { "TOF bin order {..}", "tof bin order", 'T' },                                             // 4
+  { "matrix size[i]", "matrix size", 'V' },                                                   // 5
+  { "matrix axis label[i]", "matrix axis label", 'V' },                                       // 6
+  { "scaling factor (mm/pixel)[i]", "scaling factor (mm/pixel)", 'V' },                       // 7
+  { "first pixel offset (mm)[i]", "first pixel offset (mm)", 'V' },                           // 8
+  { "image duration (sec)[i]", "image duration (sec)", 'V' },                                 // 9
+  { "image relative start time (sec)[i]", "image relative start time (sec)", 'V' },           // 10
+  { "energy window lower level[i]", "energy window lower level", 'V' },                       // 11
+  { "energy window upper level[i]", "energy window upper level", 'V' },                       // 12
+  { "image scaling factor[i]", "image scaling factor", 'V' },                                 // 13
+  { "data offset in bytes[i]", "data offset in bytes", 'V' },                                 // 14
+  { "image data type description[i]", "image data type description", 'V' },                   // 15
+  { "radionuclide name[i]", "radionuclide name", 'V' },                                       // 16
+  { "radionuclide halflife (sec)[i]", "radionuclide halflife (sec)", 'V' },                   // 17
+  { "radionuclide branching factor[i]", "radionuclide branching factor", 'V' },               // 18
+  { "image scaling factor[1] {..}", "image scaling factor", 'F' },                            // 19
+  { "matrix size[i] single value -> {..}", "matrix size", 'S' },                              // 20
+  { "index nesting level {..}", "index nesting level", 'L' },                                 // 21
+  { "radii {..}", "radii", 'L' },                                                             // 22
+  { "%segment table {..}", "%segment table", 'L' },                                           // 23
+  { "%bucket singles rate[i]", "%bucket singles rate", 'V' },                                 // 24
+  { "scan data type description[i]", "scan data type description", 'V' },                     // 25
+  { "%energy window lower level (keV)[i]", "%energy window lower level (kev)", 'V' },         // 26
+  { "%energy window upper level (keV)[i]", "%energy window upper level (kev)", 'V' },         // 27
+  { "data set[i]", "data set", 'V' },                                                         // 28
+  { "scale factor (mm/pixel)[i]", "scale factor (mm/pixel)", 'V' },                           // 29
+};
+const int NLISTFAM = int(sizeof(LIST_FAMILIES) / sizeof(LIST_FAMILIES[0]));
+//! families that occur in (or can be inserted into) the headers of each kind; the generator draws from these
+const std::vector<int>&
+list_families_of_kind(int kind)
+{
+  static const std::vector<int> image = { 5, 6, 7, 8, 9, 10, 11, 12, 13, 14, 16, 17, 19, 20 };
+  static const std::vector<int> dynamic = { 5, 6, 7, 8, 9, 10, 11, 12, 13, 14, 16, 19, 20 };
+  static const std::vector<int> parametric = { 5, 6, 7, 8, 9, 10, 13, 14, 15, 19, 20, 21 };
+  static const std::vector<int> pdfs = { 0, 1, 2, 3, 5, 6, 9, 10, 11, 12, 13, 14, 16, 19, 20 };
+  static const std::vector<int> pdfs_tof = { 0, 1, 2, 3, 4, 4, 5, 6, 9, 10, 13, 14, 19, 20 };
+  static const std::vector<int> spect = { 5, 7, 16, 20, 22, 22 };
+  static const std::vector<int> siemens = { 3, 5, 6, 14, 20, 23, 23, 24, 25, 26, 27, 29 };
+  static const std::vector<int> multi = { 28 };
+  static const std::vector<int> siemens_lm = { 23, 23, 26, 27 };
+  switch (kind)
+    {
+    case H_SIEMENS_LM:
+      return siemens_lm;
+    case H_IMAGE:
+      return image;
+    case H_DYNAMIC:
+      return dynamic;
+    case H_PARAMETRIC:
+      return parametric;
+    case H_PDFS:
+      return pdfs;
+    case H_PDFS_TOF:
+      return pdfs_tof;
+    case H_SPECT:
+      return spect;
+    case H_SIEMENS:
+      return siemens;
+    default:
+      return multi;
+    }
+}
+
+std::vector<std::string> g_list_log; // "<family>: <mode>" of every list-length mutation that was applied to the current case
+
+std::string
+trim_blanks(const std::string& v)
+{
+  const auto a = v.find_first_not_of(" \t\r");
+  const auto z = v.find_last_not_of(" \t\r");
+  return a == std::string::npos ? std::string() : v.substr(a, z - a + 1);
+}
+//! elements of "{a, b, c}" (top level only); a value without braces is one element; "" and "{}" have none
+std::vector<std::string>
+list_elements(const std::string& value)
+{
+  std::vector<std::string> e;
+  std::string v = trim_blanks(value);
+  if (v.empty())
+    return e;
+  if (v.front() != '{')
+    {
+      e.push_back(v);
+      return e;
+    }
+  v = v.substr(1);
+  if (!v.empty() && v.back() == '}')
+    v.pop_back();
+  std::string cur;
+  int depth = 0;
+  for (char ch : v)
+    {
+      if (ch == '{')
+        ++depth;
+      if (ch == '}')
+        --depth;
+      if (ch == ',' && depth == 0)
+        {
+          e.push_back(trim_blanks(cur));
+          cur.clear();
+        }
+      else
+        cur += ch;
+    }
+  if (!trim_blanks(cur).empty() || !e.empty())
+    e.push_back(trim_blanks(cur));
+  return e;
+}
+std::string
+list_text(const std::vector<std::string>& e, long style)
+{
+  std::string o = (style % 2) ? "{ " : "{";
+  for (std::size_t i = 0; i < e.size(); ++i)
+    o += (i ? ((style / 2) % 2 ? ", " : ",") : "") + e[i];
+  return o + "}";
+}
+bool
+positive_index(const std::string& ix, long& v)
+{
+  return as_long(trim_blanks(ix), v) && v >= 1 && v < 100000;
+}
+
+//! returns true if the text was changed (or, for "same length", rewritten)
+bool
+list_length_mutation(std::vector<std::string>& lines, long a, long b, long c)
+{
+  const ListFamily& fam = LIST_FAMILIES[a % NLISTFAM];
+  const int mode = int(b % LM_NMODES);
+  const long k = 1 + (b / LM_NMODES) % 3; // by how many entries
+  const std::string what = std::string(fam.name) + ": " + LIST_MODE_NAME[mode];
+  const std::string key = fam.key;
+  auto std_key = [](const LineParts& p) { return c17::ref_standardise(p.key); };
+  // position in front of the stop key (for inserted lines)
+  auto before_stop = [&]() {
+    for (std::size_t i = 0; i < lines.size(); ++i)
+      {
+        const std::string sk = c17::ref_standardise(parts(lines[i]).key);
+        if (sk == "end of interfile" || sk == "end")
+          return i;
+      }
+    return lines.size();
+  };
+  switch (fam.type)
+    {
+    case 'V':
+      {
+        std::map<long, std::size_t> at; // index -> line (last occurrence)
+        for (std::size_t i = 0; i < lines.size(); ++i)
+          {
+            const LineParts p = parts(lines[i]);
+            long ix = 0;
+            if (p.has_assign && p.has_index && std_key(p) == key && positive_index(p.index, ix))
+              at[ix] = i;
+          }
+        if (at.empty())
+          return false;
+        const long n = at.rbegin()->first;
+        if (mode == LM_SAME)
+          break;
+        if (mode == LM_LONGER)
+          {
+            const std::size_t li = at.rbegin()->second;
+            LineParts p = parts(lines[li]);
+            for (long j = k; j >= 1; --j)
+              {
+                p.index = std::to_string(n + j);
+                lines.insert(lines.begin() + std::ptrdiff_t(li) + 1, unparts(p));
+              }
+            break;
+          }
+        const long keep = mode == LM_EMPTY ? 0 : std::max(0L, n - std::min(k, std::max(1L, n - 1)));
+        std::vector<std::size_t> del;
+        for (const auto& kv : at)
+          if (kv.first > keep)
+            del.push_back(kv.second);
+        std::sort(del.begin(), del.end());
+        for (std::size_t j = del.size(); j-- > 0;)
+          lines.erase(lines.begin() + std::ptrdiff_t(del[j]));
+      }
+      break;
+    case 'L':
+    case 'S':
+      {
+        std::vector<std::size_t> cand;
+        for (std::size_t i = 0; i < lines.size(); ++i)
+          {
+            const LineParts p = parts(lines[i]);
+            if (!p.has_assign || std_key(p) != key)
+              continue;
+            const std::string v = trim_blanks(p.rest);
+            const bool braces = !v.empty() && v.front() == '{';
+            if ((fam.type == 'L' && braces) || (fam.type == 'S' && !braces && !v.empty() && p.has_index))
+              cand.push_back(i);
+          }
+        if (cand.empty())
+          return false;
+        const std::size_t li = cand[std::size_t(c / 8) % cand.size()];
+        LineParts p = parts(lines[li]);
+        std::vector<std::string> e = list_elements(p.rest);
+        if (e.empty())
+          e.push_back("1");
+        if (mode == LM_EMPTY)
+          p.rest = (c % 3 == 0) ? " {}" : (c % 3 == 1) ? " { }" : "";
+        else
+          {
+            if (mode == LM_LONGER)
+              for (long j = 0; j < k; ++j)
+                {
+                  if (c % 2 == 0)
+                    e.push_back(e.back());
+                  else
+                    e.insert(e.begin(), e.front());
+                }
+            else if (mode == LM_SHORTER)
+              {
+                const long drop = std::min<long>(k, long(e.size()) - 1);
+                if (drop <= 0)
+                  e.clear(); // a list of one entry can only become empty
+                else if (c % 2 == 0)
+                  e.resize(e.size() - std::size_t(drop));
+                else
+                  e.erase(e.begin(), e.begin() + drop);
+              }
+            p.rest = " " + list_text(e, c / 2);
+          }
+        lines[li] = unparts(p);
+      }
+      break;
+    case 'T':
+    case 'F':
+      {
+        // the length the list has to have: 'T' the number of TOF bins = matrix size [5]; 'F' the LAST matrix size
+        // (InterfileHeader::post_processing: matrix_size[matrix_size.size() - 1][0])
+        long want = -1, last_ix = 0;
+        for (const std::string& l : lines)
+          {
+            const LineParts p = parts(l);
+            long ix = 0;
+            if (p.has_assign && p.has_index && std_key(p) == "matrix size" && positive_index(p.index, ix))
+              {
+                const std::vector<std::string> e = list_elements(p.rest);
+                long v = 0;
+                if (e.empty() || !as_long(e[0], v))
+                  continue;
+                if (fam.type == 'T' ? ix == 5 : ix >= last_ix)
+                  {
+                    want = v;
+                    last_ix = ix;
+                  }
+              }
+          }
+        if (want < 1 || want > 200)
+          return false;
+        const long m = mode == LM_EMPTY ? 0 : mode == LM_SAME ? want : mode == LM_LONGER ? want + k : std::max(0L, want - k);
+        std::vector<std::string> e;
+        std::size_t li = lines.size();
+        std::string first = "1";
+        for (std::size_t i = 0; i < lines.size(); ++i)
+          {
+            const LineParts p = parts(lines[i]);
+            if (p.has_assign && std_key(p) == key && (fam.type == 'T' || trim_blanks(p.index) == "1"))
+              {
+                li = i;
+                const std::vector<std::string> old = list_elements(p.rest);
+                if (!old.empty())
+                  first = old[0];
+              }
+          }
+        if (fam.type == 'T')
+          { // a permutation of the TOF bin numbers -(m/2) ... : the natural order rotated
+            const long lo = -(m / 2);
+            for (long j = 0; j < m; ++j)
+              e.push_back(std::to_string(lo + (j + c / 4) % std::max(1L, m)));
+          }
+        else
+          e.assign(std::size_t(m), first);
+        const std::string line = std::string(fam.type == 'T' ? "TOF bin order" : "image scaling factor[1]") + " := " + list_text(e, c / 2);
+        if (li < lines.size())
+          lines[li] = line;
+        else
+          lines.insert(lines.begin() + std::ptrdiff_t(before_stop()), line);
+      }
+      break;
+    default:
+      return false;
+    }
+  g_list_log.push_back(what);
+  return true;
+}
+
 std::string
 mutate(const std::string& base, const std::string& other, const json& muts)
 {
@@ -602,9 +1027,9 @@ mutate(const std::string& base, const std::string& other, const json& muts)
   };
   for (const auto& m : muts)
     {
-      const int op = int(((m[0].get<long>() % 12) + 12) % 12);
+      const int op = int(((m[0].get<long>() % NOPS) + NOPS) % NOPS);
       const long a = std::labs(m[1].get<long>()), b = std::labs(m[2].get<long>()), c = std::labs(m[3].get<long>());
-      if (op <= 8)
+      if (op <= 8 || op == OP_LIST_LENGTH)
         unflush();
       const std::size_t n = lines.size();
       switch (op)
@@ -707,6 +1132,9 @@ mutate(const std::string& base, const std::string& other, const json& muts)
             text.insert(std::size_t(a) % (text.size() + 1), snippets[b % 15]);
           }
           break;
+        case OP_LIST_LENGTH: // one list / vectorised family longer, shorter or empty; everything else untouched
+          (void)list_length_mutation(lines, a, b, c);
+          break;
         }
     }
   flush();
@@ -721,6 +1149,8 @@ mutate(const std::string& base, const std::string& other, const json& muts)
 //       set a list of (last matrix size) scale factors.  Known finding: the repair needs the data file to be examined
 //       before anything is allocated, in the header class and in three readers.
 const char* const SIG_F7 = "C17:alloc:matrix sizes of the header drive allocations > 256 MiB before the data file is checked";
+// (F17, read_interfile_parametric_image() writing data set 3.. behind the 2 parameters of a voxel, was repaired in the library:
+//  regression input replays/C17/fixed_parametric_image_more_than_two_data_types.json)
 
 std::string
 known_signature_of(const std::string& text, int target, int sub)
@@ -766,7 +1196,7 @@ gen_muts(Src& s, int size)
     {
       // line-level operations dominate; byte-level ones are what the fuzzer is for
       long op = s.range(0, 99);
-      op = op < 30 ? 0 : op < 40 ? 1 : op < 50 ? 2 : op < 58 ? 3 : op < 63 ? 4 : op < 68 ? 5 : op < 72 ? 6 : op < 88 ? 7 : op < 91 ? 8 : op < 94 ? 9 : op < 97 ? 10 : 11;
+      op = op < 28 ? 0 : op < 30 ? OP_LIST_LENGTH : op < 40 ? 1 : op < 50 ? 2 : op < 58 ? 3 : op < 63 ? 4 : op < 68 ? 5 : op < 72 ? 6 : op < 88 ? 7 : op < 91 ? 8 : op < 94 ? 9 : op < 97 ? 10 : 11;
       muts.push_back({ op, long(s.range(0, 4095)), long(s.range(0, 4095)), long(s.range(0, 4095)) });
     }
   return muts;
@@ -785,6 +1215,8 @@ natural_target(Src& s, int kind)
       return T_PARAMETRIC;
     case H_MULTI:
       return T_MULTI;
+    case H_SIEMENS_LM:
+      return T_HEADER_CLASS; // with sub = 4
     default:
       return s.coin() ? T_PDFS : T_PROJDATA_READ_FROM_FILE;
     }
@@ -800,6 +1232,60 @@ gen_spec(Src& s, int kind)
   json j;
   j["n"] = int(s.range(0, 3));
   return j;
+}
+
+//! a "list-length" case: a library-written header of a kind, ONE (sometimes two) list-length mutation(s), the natural reader,
+//! a complete data file.  Negative arguments are drawn.
+json
+gen_list_case(Src& s, int kind, int fam, int lmode, int amount)
+{
+  json c;
+  c["raw"] = false;
+  if (kind < 0)
+    { // projection data headers carry most of the lists
+      static const std::vector<int> kinds = { H_IMAGE, H_DYNAMIC, H_PARAMETRIC, H_PDFS, H_PDFS, H_PDFS, H_PDFS_TOF, H_PDFS_TOF, H_PDFS_TOF, H_SPECT, H_SIEMENS, H_MULTI, H_SIEMENS_LM };
+      kind = int(s.pick(kinds));
+    }
+  c["kind"] = kind;
+  c["spec"] = gen_spec(s, kind);
+  {
+    // the writer only writes some of the lists for non-default data: make them appear
+    json& sp = c["spec"];
+    if (kind <= H_SPECT)
+      {
+        sp["exam"]["energy"] = true;
+        sp["exam"]["nuclide"] = 1;
+        if (sp["exam"]["start"].get<long>() % 2 == 0)
+          sp["exam"]["start"] = sp["exam"]["start"].get<long>() + 1; // (odd: a time frame is written for static images)
+        if (s.coin())
+          sp["scale"] = 2.5;
+        if (s.coin())
+          sp["offset"] = 16;
+      }
+    if (kind == H_SPECT)
+      sp["pdi"]["radii"] = true;
+  }
+  c["okind"] = int(H_MULTI);
+  c["ospec"] = gen_spec(s, H_MULTI);
+  json muts = json::array();
+  const int n = (fam < 0 && s.chance(1, 5)) ? 2 : 1;
+  for (int i = 0; i < n; ++i)
+    {
+      const std::vector<int>& fams = list_families_of_kind(kind);
+      const long f = fam >= 0 ? fam : s.pick(fams);
+      // mode: shorter / longer twice as often as empty / same length
+      static const std::vector<int> modes = { LM_SHORTER, LM_SHORTER, LM_LONGER, LM_LONGER, LM_EMPTY, LM_SAME };
+      const long m = lmode >= 0 ? lmode : s.pick(modes);
+      const long k = amount >= 1 ? amount - 1 : s.range(0, 2);
+      muts.push_back({ long(OP_LIST_LENGTH), f, m + LM_NMODES * k, long(s.range(0, 4095)) });
+    }
+  c["muts"] = muts;
+  c["target"] = natural_target(s, kind);
+  c["sub"] = kind == H_SIEMENS_LM ? 4 : int(s.range(0, 1));
+  c["dmode"] = int(s.pick(std::vector<int>{ 0, 0, 0, 5, 4 }));
+  c["dlen"] = long(s.range(1, 64));
+  c["dseed"] = long(s.range(0, 255));
+  return c;
 }
 
 json
@@ -826,6 +1312,8 @@ gen(Src& s, int size)
       return c;
     }
   c["raw"] = false;
+  if (mode >= 12)
+    return gen_list_case(s, -1, -1, -1, -1);
   const int kind = int(s.range(0, H_NKINDS - 1));
   c["kind"] = kind;
   c["spec"] = gen_spec(s, kind);
@@ -836,6 +1324,8 @@ gen(Src& s, int size)
   c["muts"] = gen_muts(s, size);
   c["target"] = s.chance(1, 8) ? int(s.range(0, T_NTARGETS - 1)) : natural_target(s, kind);
   c["sub"] = int(s.range(0, 7));
+  if (kind == H_SIEMENS_LM && c["target"].get<int>() == T_HEADER_CLASS && !s.chance(1, 8))
+    c["sub"] = 4; // the header class of that kind
   c["dmode"] = int(s.pick(std::vector<int>{ 0, 0, 0, 5, 5, 5, 1, 2, 2, 3, 4 }));
   c["dlen"] = long(s.range(1, 64));
   c["dseed"] = long(s.range(0, 255));
@@ -933,6 +1423,458 @@ inspect_projdata(ProjData& pd, Outcome& o)
     }
 }
 
+// ---------------------------------------------------------------------------------------------------
+// Reference model of an ACCEPTED header, computed from the header TEXT (never from the library's header classes): used for
+// headers written by the library itself, unmutated or with list-length mutations only, where every keyword of the text is
+// unambiguous.  An accepted object has to agree with ALL lists the header kept: a reader that silently ignores a list whose
+// length (or content) contradicts the others has produced an object that contradicts the header.  Anything the model cannot
+// read unambiguously from the text makes it return "" (no verdict).
+struct TextModel
+{
+  std::vector<KV> kvs;
+  explicit TextModel(const std::string& text)
+  {
+    kvs = mini_parse(text);
+    for (std::size_t i = 0; i < kvs.size(); ++i)
+      if (kvs[i].key == "end of interfile" || kvs[i].key == "end")
+        {
+          kvs.resize(i);
+          break;
+        }
+  }
+  //! number of lines with this key and index (index < 0: lines without index)
+  int count(const std::string& key, long index) const
+  {
+    int n = 0;
+    for (const KV& kv : kvs)
+      if (kv.key == key && (index < 0 ? !kv.has_index : (kv.has_index && kv.index == index)))
+        ++n;
+    return n;
+  }
+  bool one(const std::string& key, long index, std::string& v) const
+  {
+    if (count(key, index) != 1)
+      return false;
+    for (const KV& kv : kvs)
+      if (kv.key == key && (index < 0 ? !kv.has_index : (kv.has_index && kv.index == index)))
+        v = kv.value;
+    return true;
+  }
+  bool integer(const std::string& key, long index, long& x) const
+  {
+    std::string v;
+    return one(key, index, v) && as_long(v, x);
+  }
+  bool real(const std::string& key, long index, double& x) const
+  {
+    std::string v;
+    if (!one(key, index, v) || v.empty())
+      return false;
+    char* e = nullptr;
+    x = std::strtod(v.c_str(), &e);
+    return e && *e == 0;
+  }
+  //! elements of the list value of a key that occurs exactly once; ok=false if the key is absent or repeated
+  std::vector<std::string> list(const std::string& key, long index, bool& ok) const
+  {
+    std::string v;
+    ok = one(key, index, v);
+    return ok ? list_elements(v) : std::vector<std::string>();
+  }
+};
+bool
+all_integers(const std::vector<std::string>& e, std::vector<long>& out)
+{
+  out.clear();
+  for (const std::string& x : e)
+    {
+      long v = 0;
+      if (!as_long(x, v))
+        return false;
+      out.push_back(v);
+    }
+  return true;
+}
+bool
+close_enough(double a, double b)
+{ // header numbers carry 6 significant digits and are converted to float by the readers; a wrong entry differs by >= 1e-2 relative
+  return std::fabs(a - b) <= 1e-5 * std::max(std::fabs(a), std::fabs(b)) + 1e-12;
+}
+
+std::string
+model_pdfs_pet(const TextModel& t, const ProjData& pd)
+{
+  const auto pdi = pd.get_proj_data_info_sptr();
+  long ndim = 0;
+  if (!t.integer("number of dimensions", -1, ndim) || (ndim != 4 && ndim != 5))
+    return "";
+  long ax = -1, view = -1;
+  for (long d = 1; d <= ndim; ++d)
+    {
+      std::string lab;
+      if (!t.one("matrix axis label", d, lab))
+        return "";
+      if (lab == "axial coordinate")
+        ax = d;
+      else if (lab == "view")
+        view = d;
+    }
+  if (ax < 0 || view < 0)
+    return "";
+  bool ok1, ok2, ok3, ok4, ok5, ok6;
+  std::vector<long> tang, segs, views, axl, minrd, maxrd;
+  if (!all_integers(t.list("matrix size", 1, ok1), tang) || !all_integers(t.list("matrix size", 4, ok2), segs)
+      || !all_integers(t.list("matrix size", view, ok3), views) || !all_integers(t.list("matrix size", ax, ok4), axl)
+      || !all_integers(t.list("minimum ring difference per segment", -1, ok5), minrd)
+      || !all_integers(t.list("maximum ring difference per segment", -1, ok6), maxrd))
+    return "";
+  if (!(ok1 && ok2 && ok3 && ok4 && ok5 && ok6) || tang.empty() || segs.empty() || views.empty())
+    return "";
+  const long nseg = segs[0];
+  // a keyword WITHOUT value is documented to leave the variable alone (KeyParser.h: "if the keyword had no value, set_variable will do
+  // nothing"): the header then keeps no such list, and the reader goes on with the zero-filled list of resize_segments_and_set().
+  // The object cannot contradict a list that is not there: nothing is demanded about the ring differences in that case.
+  // (An explicit empty list "{}" is a list of length 0.)
+  bool rd_lists_given = true;
+  {
+    std::string v1, v2;
+    if (t.one("minimum ring difference per segment", -1, v1) && t.one("maximum ring difference per segment", -1, v2)
+        && (trim_blanks(v1).empty() || trim_blanks(v2).empty()))
+      {
+        rd_lists_given = false;
+        stats().count("accepted: a ring difference keyword without value (the reader goes on with zeros)");
+        if (trim_blanks(v1).empty())
+          minrd.assign(std::size_t(nseg), 0);
+        if (trim_blanks(v2).empty())
+          maxrd.assign(std::size_t(nseg), 0);
+      }
+  }
+  if (long(minrd.size()) != nseg)
+    return cat("accepted although 'minimum ring difference per segment' has ", minrd.size(), " entries and the header declares ", nseg, " segments");
+  if (long(maxrd.size()) != nseg)
+    return cat("accepted although 'maximum ring difference per segment' has ", maxrd.size(), " entries and the header declares ", nseg, " segments");
+  if (long(axl.size()) != nseg)
+    return cat("accepted although the 'matrix size' list of the axial coordinate has ", axl.size(), " entries and the header declares ", nseg, " segments");
+  if (pdi->get_num_segments() != nseg)
+    return cat("the header declares ", nseg, " segments, the accepted object has ", pdi->get_num_segments());
+  if (pdi->get_num_views() != views[0])
+    return cat("the header declares ", views[0], " views, the accepted object has ", pdi->get_num_views());
+  if (pdi->get_num_tangential_poss() != tang[0])
+    return cat("the header declares ", tang[0], " tangential positions, the accepted object has ", pdi->get_num_tangential_poss());
+  long ntof = 1;
+  if (ndim == 5)
+    {
+      bool okt;
+      std::vector<long> tof;
+      if (!all_integers(t.list("matrix size", 5, okt), tof) || !okt || tof.empty())
+        return "";
+      ntof = tof[0];
+      if (pdi->get_num_tof_poss() != ntof)
+        return cat("the header declares ", ntof, " TOF bins, the accepted object has ", pdi->get_num_tof_poss());
+    }
+  const auto* cyl = dynamic_cast<const ProjDataInfoCylindrical*>(pdi.get());
+  const auto* pdfs = dynamic_cast<const ProjDataFromStream*>(&pd);
+  if (cyl && rd_lists_given)
+    {
+      // ProjDataInfoCylindrical's constructor documents: "min_ring_difference is larger than max_ring_difference ... Swapping them around"
+      for (long i = 0; i < nseg; ++i)
+        if (minrd[std::size_t(i)] > maxrd[std::size_t(i)])
+          std::swap(minrd[std::size_t(i)], maxrd[std::size_t(i)]);
+      // the reader numbers the segments by sorting min+max: with equal sums the order of the tied entries is not defined
+      bool distinct_sums = true;
+      for (long i = 0; i < nseg; ++i)
+        for (long j = i + 1; j < nseg; ++j)
+          if (minrd[std::size_t(i)] + maxrd[std::size_t(i)] == minrd[std::size_t(j)] + maxrd[std::size_t(j)])
+            distinct_sums = false;
+      if (pdfs && distinct_sums)
+        {
+          // the i-th entry of the three lists describes the i-th segment in the stream
+          const std::vector<int> seq = pdfs->get_segment_sequence_in_stream();
+          if (long(seq.size()) != nseg)
+            return cat("segment sequence in the stream has ", seq.size(), " entries, the header declares ", nseg, " segments");
+          for (long i = 0; i < nseg; ++i)
+            {
+              const int sg = seq[std::size_t(i)];
+              if (sg < pdi->get_min_segment_num() || sg > pdi->get_max_segment_num())
+                return cat("segment sequence in the stream names segment ", sg, " outside the range of the object");
+              if (cyl->get_min_ring_difference(sg) != minrd[std::size_t(i)] || cyl->get_max_ring_difference(sg) != maxrd[std::size_t(i)]
+                  || pdi->get_num_axial_poss(sg) != axl[std::size_t(i)])
+                return cat("entry ", i + 1, " of the per-segment lists is (min ", minrd[std::size_t(i)], ", max ", maxrd[std::size_t(i)], ", axial positions ",
+                           axl[std::size_t(i)], ") but the segment at that place of the accepted object (segment ", sg, ") has (min ",
+                           cyl->get_min_ring_difference(sg), ", max ", cyl->get_max_ring_difference(sg), ", axial positions ", pdi->get_num_axial_poss(sg), ")");
+            }
+        }
+      else
+        {
+          std::vector<std::vector<long>> a, b;
+          for (long i = 0; i < nseg; ++i)
+            a.push_back({ minrd[std::size_t(i)], maxrd[std::size_t(i)], axl[std::size_t(i)] });
+          for (int sg = pdi->get_min_segment_num(); sg <= pdi->get_max_segment_num(); ++sg)
+            b.push_back({ long(cyl->get_min_ring_difference(sg)), long(cyl->get_max_ring_difference(sg)), long(pdi->get_num_axial_poss(sg)) });
+          std::sort(a.begin(), a.end());
+          std::sort(b.begin(), b.end());
+          if (a != b)
+            return "the (min ring difference, max ring difference, axial positions) triples of the accepted object differ from the header's per-segment lists";
+        }
+    }
+  // the scanner keys the writer put into the header (Scanner::parameter_info) have to come back in the accepted object's Scanner
+  // (only for scanners the library does not know by name: for a known name the header values are merged with the stored model)
+  {
+    const Scanner& sc = *pdi->get_scanner_ptr();
+    if (sc.get_type() == Scanner::User_defined_scanner || sc.get_type() == Scanner::Unknown_scanner)
+      {
+        struct IKey
+        {
+          const char* key;
+          long got;
+        };
+        const IKey ikeys[] = {
+          { "number of rings", sc.get_num_rings() },
+          { "number of detectors per ring", sc.get_num_detectors_per_ring() },
+          { "maximum number of non-arc-corrected bins", sc.get_max_num_non_arccorrected_bins() },
+          { "default number of arc-corrected bins", sc.get_default_num_arccorrected_bins() },
+          { "number of blocks per bucket in transaxial direction", sc.get_num_transaxial_blocks_per_bucket() },
+          { "number of blocks per bucket in axial direction", sc.get_num_axial_blocks_per_bucket() },
+          { "number of crystals per block in axial direction", sc.get_num_axial_crystals_per_block() },
+          { "number of crystals per block in transaxial direction", sc.get_num_transaxial_crystals_per_block() },
+          { "number of detector layers", sc.get_num_detector_layers() },
+          { "number of crystals per singles unit in axial direction", sc.get_num_axial_crystals_per_singles_unit() },
+          { "number of crystals per singles unit in transaxial direction", sc.get_num_transaxial_crystals_per_singles_unit() },
+        };
+        for (const IKey& k : ikeys)
+          {
+            long want = 0;
+            if (t.integer(k.key, -1, want) && want != k.got)
+              return cat("scanner key '", k.key, "' is ", want, " in the header, the accepted object's scanner has ", k.got);
+          }
+        struct RKey
+        {
+          const char* key;
+          double got;
+        };
+        const RKey rkeys[] = {
+          { "inner ring diameter (cm)", sc.get_inner_ring_radius() * 2 / 10. },
+          { "average depth of interaction (cm)", sc.get_average_depth_of_interaction() / 10. },
+          { "distance between rings (cm)", sc.get_ring_spacing() / 10. },
+          { "default bin size (cm)", sc.get_default_bin_size() / 10. },
+          { "view offset (degrees)", sc.get_intrinsic_azimuthal_tilt() * 180. / _PI },
+          { "energy resolution", sc.get_energy_resolution() },
+          { "reference energy (in kev)", sc.get_reference_energy() },
+        };
+        for (const RKey& k : rkeys)
+          {
+            double want = 0;
+            if (!t.real(k.key, -1, want))
+              continue;
+            stats().maxi("max rel difference scanner key header/object", std::fabs(k.got - want) / std::max(1e-9, std::max(std::fabs(want), std::fabs(k.got))));
+            if (!close_enough(k.got, want) && std::fabs(k.got - want) > 1e-6)
+              return cat("scanner key '", k.key, "' is ", want, " in the header, the accepted object's scanner has ", k.got);
+          }
+      }
+  }
+  // "TOF bin order": absent or empty = natural order (InterfilePDFSHeader::post_processing only looks at a non-empty list)
+  if (t.count("tof bin order", -1) > 0)
+    {
+      bool okb;
+      std::vector<long> tbo;
+      if (!all_integers(t.list("tof bin order", -1, okb), tbo) || !okb)
+        return "";
+      if (!tbo.empty())
+        {
+          if (long(tbo.size()) != ntof)
+            return cat("accepted although 'TOF bin order' has ", tbo.size(), " entries and the header declares ", ntof, " TOF bins");
+          if (pdfs && tbo.size() > 1)
+            {
+              const std::vector<int> got = pdfs->get_timing_poss_sequence_in_stream();
+              if (got.size() != tbo.size())
+                return cat("'TOF bin order' has ", tbo.size(), " entries, the accepted object's sequence has ", got.size());
+              for (std::size_t i = 0; i < got.size(); ++i)
+                if (got[i] != tbo[i])
+                  return cat("'TOF bin order' entry ", i + 1, " is ", tbo[i], ", the accepted object has ", got[i]);
+            }
+        }
+    }
+  return "";
+}
+
+std::string
+model_pdfs_spect(const TextModel& t, const ProjData& pd)
+{
+  const auto pdi = pd.get_proj_data_info_sptr();
+  long views = 0;
+  bool ok1, ok2;
+  std::vector<long> tang, axial;
+  if (!t.integer("number of projections", -1, views) || !all_integers(t.list("matrix size", 1, ok1), tang)
+      || !all_integers(t.list("matrix size", 2, ok2), axial) || !ok1 || !ok2 || tang.empty() || axial.empty())
+    return "";
+  if (pdi->get_num_segments() != 1 || pdi->get_num_views() != views || pdi->get_num_tangential_poss() != tang[0] || pdi->get_num_axial_poss(0) != axial[0])
+    return cat("the header declares ", views, " projections x ", axial[0], " x ", tang[0], ", the accepted object has ", pdi->get_num_segments(), " segment(s), ",
+               pdi->get_num_views(), " x ", pdi->get_num_axial_poss(0), " x ", pdi->get_num_tangential_poss());
+  std::string orbit;
+  if (t.one("orbit", -1, orbit) && c17::ref_standardise(orbit) == "non-circular")
+    {
+      bool okr;
+      const std::vector<std::string> radii = t.list("radii", -1, okr);
+      if (!okr)
+        return "";
+      if (long(radii.size()) != views)
+        return cat("accepted although 'radii' has ", radii.size(), " entries and the header declares ", views, " projections (non-circular orbit)");
+      if (const auto* cyl = dynamic_cast<const ProjDataInfoCylindrical*>(pdi.get()))
+        {
+          const VectorWithOffset<float> got = cyl->get_ring_radii_for_all_views();
+          if (got.get_length() != views)
+            return cat("the accepted object has ", got.get_length(), " radii for ", views, " views");
+          for (long i = 0; i < views; ++i)
+            {
+              const double want = std::strtod(radii[std::size_t(i)].c_str(), nullptr);
+              stats().maxi("max rel difference radius header/object", std::fabs(got[got.get_min_index() + int(i)] - want) / std::max(1e-9, std::fabs(want)));
+              if (!close_enough(got[got.get_min_index() + int(i)], want))
+                return cat("'radii' entry ", i + 1, " is ", want, ", the accepted object has ", got[got.get_min_index() + int(i)]);
+            }
+        }
+    }
+  return "";
+}
+
+std::string
+model_pdfs_siemens(const TextModel& t, const ProjData& pd)
+{
+  long nseg = 0;
+  bool ok;
+  const std::vector<std::string> table = t.list("%segment table", -1, ok);
+  if (!ok || !t.integer("%number of segments", -1, nseg))
+    return "";
+  if (long(table.size()) != nseg)
+    return cat("accepted although '%segment table' has ", table.size(), " entries and '%number of segments' is ", nseg);
+  if (pd.get_proj_data_info_sptr()->get_num_segments() != nseg)
+    return cat("'%number of segments' is ", nseg, ", the accepted object has ", pd.get_proj_data_info_sptr()->get_num_segments());
+  return "";
+}
+
+std::string
+model_projdata(int model_kind, const std::string& text, const ProjData& pd)
+{
+  const TextModel t(text);
+  switch (model_kind)
+    {
+    case H_PDFS:
+    case H_PDFS_TOF:
+      return model_pdfs_pet(t, pd);
+    case H_SPECT:
+      return model_pdfs_spect(t, pd);
+    case H_SIEMENS:
+      return model_pdfs_siemens(t, pd);
+    default:
+      return "";
+    }
+}
+
+struct ImgFacts
+{
+  std::vector<int> dims;      // x,y,z
+  double vox[3] = { 0, 0, 0 }; // x,y,z
+  bool have_vox = false;
+  long nframes = -1;
+  std::vector<std::pair<double, double>> frames; // start, duration
+  long nparams = -1;
+};
+template <class ImageT>
+void
+voxel_facts(const ImageT& im, ImgFacts& f)
+{
+  if (const auto* v = dynamic_cast<const VoxelsOnCartesianGrid<float>*>(&im))
+    {
+      f.vox[0] = v->get_voxel_size().x();
+      f.vox[1] = v->get_voxel_size().y();
+      f.vox[2] = v->get_voxel_size().z();
+      f.have_vox = true;
+    }
+}
+std::string
+model_image(const std::string& text, const ImgFacts& f, int target)
+{
+  const TextModel t(text);
+  if (f.dims.size() != 3)
+    return "";
+  long n[3] = { 0, 0, 0 };
+  for (long d = 1; d <= 3; ++d)
+    {
+      bool ok;
+      std::vector<long> l;
+      if (!all_integers(t.list("matrix size", d, ok), l) || !ok || l.empty())
+        return "";
+      if (l.size() != 1)
+        return cat("accepted although 'matrix size[", d, "]' has ", l.size(), " entries (an image has one size per axis)");
+      n[d - 1] = l[0];
+      if (f.dims[std::size_t(d - 1)] != l[0])
+        return cat("'matrix size[", d, "]' is ", l[0], ", the accepted image has ", f.dims[std::size_t(d - 1)]);
+    }
+  if (f.have_vox)
+    for (long d = 1; d <= 3; ++d)
+      {
+        double want = 1.; // InterfileHeader: pixel_sizes.resize(num_dimensions, 1.)
+        const int c = t.count("scaling factor (mm/pixel)", d);
+        if (c > 1 || (c == 1 && !t.real("scaling factor (mm/pixel)", d, want)))
+          continue;
+        stats().maxi("max rel difference voxel size header/object", std::fabs(f.vox[d - 1] - want) / std::max(1e-9, std::fabs(want)));
+        if (!close_enough(f.vox[d - 1], want))
+          return cat("'scaling factor (mm/pixel)[", d, "]' is ", c ? cat(want) : std::string("absent (default 1)"), ", the accepted image has voxel size ", f.vox[d - 1]);
+      }
+  for (const KV& kv : t.kvs)
+    if (kv.key == "image scaling factor" && kv.has_index)
+      {
+        const std::size_t m = list_elements(kv.value).size();
+        if (m != 0 && m != 1 && long(m) != n[2])
+          return cat("accepted although 'image scaling factor[", kv.index, "]' has ", m, " entries (1 or the last matrix size ", n[2], " expected)");
+      }
+  if (target == T_DYNAMIC)
+    {
+      long ntf = 0;
+      if (!t.integer("number of time frames", -1, ntf))
+        return "";
+      if (f.nframes != ntf)
+        return cat("'number of time frames' is ", ntf, ", the accepted dynamic image has ", f.nframes);
+      for (long fr = 1; fr <= ntf && fr <= long(f.frames.size()); ++fr)
+        {
+          double st = 0, du = 0;
+          if (t.real("image relative start time (sec)", fr, st) && t.real("image duration (sec)", fr, du) && du > 0)
+            if (!close_enough(f.frames[std::size_t(fr - 1)].first, st) || !close_enough(f.frames[std::size_t(fr - 1)].second, du))
+              return cat("time frame ", fr, " of the header is (start ", st, ", duration ", du, "), the accepted image has (", f.frames[std::size_t(fr - 1)].first, ", ",
+                         f.frames[std::size_t(fr - 1)].second, ")");
+        }
+    }
+  if (target == T_PARAMETRIC)
+    {
+      long np = 1;
+      if (t.count("number of image data types", -1) > 0 && !t.integer("number of image data types", -1, np))
+        return "";
+      if (f.nparams != np)
+        return cat("'number of image data types' is ", np, ", the accepted parametric image has ", f.nparams, " parameters");
+    }
+  return "";
+}
+
+std::string
+model_multi(const std::string& text, const MultipleDataSetHeader& h)
+{
+  const TextModel t(text);
+  long n = 0;
+  if (!t.integer("total number of data sets", -1, n))
+    return "";
+  if (long(h.get_num_data_sets()) != n)
+    return cat("'total number of data sets' is ", n, ", the accepted header has ", h.get_num_data_sets());
+  for (long i = 1; i <= n; ++i)
+    {
+      std::string v;
+      // (MultipleDataSetHeader::post_processing: "Data set[i] is empty" is an error)
+      if (t.count("data set", i) == 0)
+        return cat("accepted although 'data set[", i, "]' is missing and 'total number of data sets' is ", n);
+      if (t.one("data set", i, v) && h.get_filename(std::size_t(i - 1)) != v)
+        return cat("'data set[", i, "]' is '", c17::enc(v), "', the accepted header has '", c17::enc(h.get_filename(std::size_t(i - 1))), "'");
+    }
+  return "";
+}
+
 //! overwrite the part of the stack the readers are going to use: read_interfile_image(istream&) goes on with an
 //! uninitialised char[1000] file name (and a null image pointer) when the header does not parse (finding F14), which makes
 //! the outcome depend on what the previous case left on the stack; zeroes make every case start from the same state
@@ -946,10 +1888,11 @@ scrub_stack()
 }
 
 Outcome
-run_target_impl(int target, int sub, const std::string& hdr_path, const std::string& text);
+run_target_impl(int target, int sub, const std::string& hdr_path, const std::string& text, int model_kind);
 
+//! model_kind: kind of the library-written header when the reference model applies (unmutated, or list-length mutations only); -1: none
 Outcome
-run_target(int target, int sub, const std::string& hdr_path, const std::string& text)
+run_target(int target, int sub, const std::string& hdr_path, const std::string& text, int model_kind)
 {
   // "prime:" prefix of the path (only used by the F14 probe): first read the valid image prime.hv with the same reader and do
   // NOT scrub in between, then read the case's header: the stale file name on the stack is an existing file
@@ -958,17 +1901,22 @@ run_target(int target, int sub, const std::string& hdr_path, const std::string& 
       const std::string real = hdr_path.substr(6);
       const std::string dir = c17::scratch_dir();
       scrub_stack();
-      (void)run_target_impl(target, sub, dir + "/prime.hv", c17::read_file(dir + "/prime.hv"));
-      return run_target_impl(target, sub, real, text);
+      (void)run_target_impl(target, sub, dir + "/prime.hv", c17::read_file(dir + "/prime.hv"), -1);
+      return run_target_impl(target, sub, real, text, model_kind);
     }
   scrub_stack();
-  return run_target_impl(target, sub, hdr_path, text);
+  return run_target_impl(target, sub, hdr_path, text, model_kind);
 }
 
 Outcome
-run_target_impl(int target, int sub, const std::string& hdr_path, const std::string& text)
+run_target_impl(int target, int sub, const std::string& hdr_path, const std::string& text, int model_kind)
 {
   Outcome o;
+  const bool image_model = model_kind == H_IMAGE || model_kind == H_DYNAMIC || model_kind == H_PARAMETRIC;
+  auto apply_image_model = [&](const ImgFacts& f) {
+    if (image_model && o.inconsistency.empty())
+      o.inconsistency = model_image(text, f, target);
+  };
   const std::string dir = c17::scratch_dir();
   try
     {
@@ -983,6 +1931,10 @@ run_target_impl(int target, int sub, const std::string& hdr_path, const std::str
               {
                 o.accepted = true;
                 inspect_image(*im, o);
+                ImgFacts f;
+                f.dims = o.dims;
+                voxel_facts(*im, f);
+                apply_image_model(f);
               }
           }
           break;
@@ -995,6 +1947,10 @@ run_target_impl(int target, int sub, const std::string& hdr_path, const std::str
               {
                 o.accepted = true;
                 inspect_image(*im, o);
+                ImgFacts f;
+                f.dims = o.dims;
+                voxel_facts(*im, f);
+                apply_image_model(f);
               }
           }
           break;
@@ -1008,12 +1964,18 @@ run_target_impl(int target, int sub, const std::string& hdr_path, const std::str
               {
                 o.accepted = true;
                 inspect_image(*im, o);
+                ImgFacts f;
+                f.dims = o.dims;
+                voxel_facts(*im, f);
+                apply_image_model(f);
               }
           }
           break;
         case T_DYNAMIC:
           {
-            std::unique_ptr<DynamicDiscretisedDensity> d(read_interfile_dynamic_image(hdr_path));
+            std::istringstream in_dyn(text);
+            // (odd sub: the std::istream overload, which the file name overload calls after opening the file)
+            std::unique_ptr<DynamicDiscretisedDensity> d(sub % 2 ? read_interfile_dynamic_image(in_dyn, dir) : read_interfile_dynamic_image(hdr_path));
             if (!d)
               o.how = "null";
             else
@@ -1035,12 +1997,23 @@ run_target_impl(int target, int sub, const std::string& hdr_path, const std::str
                       o.inconsistency = fo.inconsistency;
                   }
                 o.is_image = true;
+                ImgFacts f;
+                f.dims = o.dims;
+                if (d->get_num_time_frames() >= 1)
+                  voxel_facts(d->get_density(1), f);
+                f.nframes = long(d->get_num_time_frames());
+                const TimeFrameDefinitions& tfd = d->get_time_frame_definitions();
+                for (unsigned fr = 1; fr <= tfd.get_num_frames() && fr <= d->get_num_time_frames(); ++fr)
+                  f.frames.push_back({ tfd.get_start_time(fr), tfd.get_duration(fr) });
+                apply_image_model(f);
               }
           }
           break;
         case T_PARAMETRIC:
           {
-            std::unique_ptr<ParametricVoxelsOnCartesianGrid> p(read_interfile_parametric_image(hdr_path));
+            std::istringstream in_par(text);
+            std::unique_ptr<ParametricVoxelsOnCartesianGrid> p(sub % 2 ? read_interfile_parametric_image(in_par, dir)
+                                                                       : read_interfile_parametric_image(hdr_path));
             if (!p)
               o.how = "null";
             else
@@ -1061,18 +2034,27 @@ run_target_impl(int target, int sub, const std::string& hdr_path, const std::str
                     if (fo.dims != o.dims && o.inconsistency.empty())
                       o.inconsistency = "a single parameter image has another size than the parametric image";
                   }
+                ImgFacts f;
+                f.dims = o.dims;
+                if (p->get_num_params() >= 1)
+                  voxel_facts(p->construct_single_density(1), f);
+                f.nparams = long(p->get_num_params());
+                apply_image_model(f);
               }
           }
           break;
         case T_PDFS:
           {
-            std::unique_ptr<ProjDataFromStream> pd(read_interfile_PDFS(hdr_path, std::ios::in));
+            std::istringstream in_pd(text);
+            std::unique_ptr<ProjDataFromStream> pd(sub % 2 ? read_interfile_PDFS(in_pd, dir, std::ios::in) : read_interfile_PDFS(hdr_path, std::ios::in));
             if (!pd)
               o.how = "null";
             else
               {
                 o.accepted = true;
                 inspect_projdata(*pd, o);
+                if (model_kind >= H_PDFS && model_kind <= H_SIEMENS && o.inconsistency.empty())
+                  o.inconsistency = model_projdata(model_kind, text, *pd);
               }
           }
           break;
@@ -1085,6 +2067,8 @@ run_target_impl(int target, int sub, const std::string& hdr_path, const std::str
               {
                 o.accepted = true;
                 inspect_projdata(*pd, o);
+                if (model_kind >= H_PDFS && model_kind <= H_SIEMENS && o.inconsistency.empty())
+                  o.inconsistency = model_projdata(model_kind, text, *pd);
               }
           }
           break;
@@ -1109,6 +2093,8 @@ run_target_impl(int target, int sub, const std::string& hdr_path, const std::str
                         break;
                       }
                   }
+                if (model_kind == H_MULTI && o.inconsistency.empty())
+                  o.inconsistency = model_multi(text, h);
               }
           }
           break;
@@ -1147,6 +2133,31 @@ run_target_impl(int target, int sub, const std::string& hdr_path, const std::str
                 {
                   InterfileListmodeHeaderSiemens h;
                   ok = h.parse(in, false);
+                  if (ok && !h.data_info_ptr)
+                    o.inconsistency = "InterfileListmodeHeaderSiemens::parse returned true but there is no ProjDataInfo";
+                  else if (ok)
+                    {
+                      // accessors of the accepted header and of its ProjDataInfo
+                      const ProjDataInfo& pdi = *h.data_info_ptr;
+                      if (pdi.get_num_views() != h.get_num_views() || pdi.get_num_tangential_poss() != h.get_num_projections())
+                        o.inconsistency = cat("listmode header says ", h.get_num_views(), " views x ", h.get_num_projections(), " projections, its ProjDataInfo has ",
+                                              pdi.get_num_views(), " x ", pdi.get_num_tangential_poss());
+                      else if (model_kind == H_SIEMENS_LM)
+                        {
+                          const TextModel t(text);
+                          long nseg = 0, nv = 0, np = 0;
+                          bool okl;
+                          const std::vector<std::string> table = t.list("%segment table", -1, okl);
+                          if (okl && t.integer("%number of segments", -1, nseg) && t.integer("%number of views", -1, nv) && t.integer("%number of projections", -1, np))
+                            {
+                              if (long(table.size()) != nseg)
+                                o.inconsistency = cat("accepted although '%segment table' has ", table.size(), " entries and '%number of segments' is ", nseg);
+                              else if (pdi.get_num_segments() != nseg || pdi.get_num_views() != nv || pdi.get_num_tangential_poss() != np)
+                                o.inconsistency = cat("the header declares ", nseg, " segments, ", nv, " views, ", np, " projections; the accepted object has ",
+                                                      pdi.get_num_segments(), ", ", pdi.get_num_views(), ", ", pdi.get_num_tangential_poss());
+                            }
+                        }
+                    }
                 }
                 break;
               case 5:
@@ -1372,7 +2383,8 @@ struct Server
           {
             const json q = json::parse(line);
             c17::AllocGuard guard;
-            Outcome co = run_target(q["target"].get<int>(), q["sub"].get<int>(), q["hdr"].get<std::string>(), c17::dec(q["text"].get<std::string>()));
+            Outcome co = run_target(q["target"].get<int>(), q["sub"].get<int>(), q["hdr"].get<std::string>(), c17::dec(q["text"].get<std::string>()),
+                                    q.value("model", -1));
             guard.stop();
             reply = outcome_to_json(co, guard.refused(), guard.max_single()).dump();
           }
@@ -1450,14 +2462,15 @@ struct Isolated
 };
 
 Isolated
-run_isolated(int target, int sub, const std::string& hdr_path, const std::string& text, Outcome& o, std::size_t& refused, std::size_t& max_single)
+run_isolated(int target, int sub, const std::string& hdr_path, const std::string& text, int model_kind, Outcome& o, std::size_t& refused,
+             std::size_t& max_single)
 {
   Isolated iso;
   static const bool isolate = std::getenv("VERIF_STATS_OUT") == nullptr && std::getenv("VERIF_C17_NOFORK") == nullptr;
   if (!isolate)
     {
       c17::AllocGuard guard;
-      o = run_target(target, sub, hdr_path, text);
+      o = run_target(target, sub, hdr_path, text, model_kind);
       guard.stop();
       refused = guard.refused();
       max_single = guard.max_single();
@@ -1470,6 +2483,7 @@ run_isolated(int target, int sub, const std::string& hdr_path, const std::string
   q["sub"] = sub;
   q["hdr"] = hdr_path;
   q["text"] = c17::enc(text);
+  q["model"] = model_kind;
   const std::string line = q.dump() + "\n";
   bool sent = true;
   {
@@ -1616,6 +2630,8 @@ check(const json& c)
   std::string text;
   Base base;
   bool mutated = true;
+  bool pure_list = false;
+  int model_kind = -1;
   if (raw)
     {
       text = c17::dec(c["text"].get<std::string>());
@@ -1635,7 +2651,7 @@ check(const json& c)
       std::string other;
       bool needs_other = false;
       for (const auto& m : c["muts"])
-        if (((m[0].get<long>() % 12) + 12) % 12 == 6)
+        if (((m[0].get<long>() % NOPS) + NOPS) % NOPS == 6)
           needs_other = true;
       if (needs_other)
         {
@@ -1650,9 +2666,21 @@ check(const json& c)
               other.clear();
             }
         }
+      g_list_log.clear();
       text = mutate(base.text, other, c["muts"]);
       mutated = text != base.text;
       stats().cls(std::string("kind: ") + KIND_NAME[kind]);
+      // the reference model of an accepted object applies to the library's own header, unmutated or with list-length mutations only
+      pure_list = !c["muts"].empty();
+      for (const auto& m : c["muts"])
+        if (((m[0].get<long>() % NOPS) + NOPS) % NOPS != OP_LIST_LENGTH)
+          pure_list = false;
+      const bool natural_reader = (kind == H_IMAGE && target <= T_IMAGE_STREAM) || (kind == H_DYNAMIC && target == T_DYNAMIC)
+                                  || (kind == H_PARAMETRIC && target == T_PARAMETRIC)
+                                  || ((kind == H_PDFS || kind == H_PDFS_TOF || kind == H_SPECT || kind == H_SIEMENS) && (target == T_PDFS || target == T_PROJDATA_READ_FROM_FILE))
+                                  || (kind == H_MULTI && target == T_MULTI) || (kind == H_SIEMENS_LM && target == T_HEADER_CLASS && sub % 7 == 4);
+      if ((!mutated || pure_list) && natural_reader)
+        model_kind = kind;
     }
   c17::clean_scratch(); // the library's own files (.hv/.ahv) go; the case's files are written below
   stats().cls(std::string("target: ") + TARGET_NAME[target]);
@@ -1818,7 +2846,7 @@ check(const json& c)
                                           "!matrix size [3] := 1\nnumber of time frames := 1\n!END OF INTERFILE :=\n");
       c17::write_file(dir + "/prime.v", std::string(4, '\0'));
     }
-  const Isolated iso = run_isolated(target, sub, (prime ? "prime:" : "") + hdr_path, text, o, refused, max_single);
+  const Isolated iso = run_isolated(target, sub, (prime ? "prime:" : "") + hdr_path, text, model_kind, o, refused, max_single);
   stir_verif::asserts_on = true;
   if (iso.died == "timeout")
     {
@@ -1882,8 +2910,27 @@ check(const json& c)
   const bool natural = (kind == H_IMAGE && target <= T_IMAGE_STREAM) || (kind == H_DYNAMIC && target == T_DYNAMIC)
                        || (kind == H_PARAMETRIC && target == T_PARAMETRIC)
                        || ((kind == H_PDFS || kind == H_PDFS_TOF || kind == H_SPECT || kind == H_SIEMENS) && (target == T_PDFS || target == T_PROJDATA_READ_FROM_FILE))
-                       || (kind == H_MULTI && target == T_MULTI);
-  if (!raw && !mutated && natural && (dmode == 0 || dmode == 4) && kind != H_SIEMENS)
+                       || (kind == H_MULTI && target == T_MULTI) || (kind == H_SIEMENS_LM && target == T_HEADER_CLASS && sub % 7 == 4);
+  if (pure_list && natural && !g_list_log.empty())
+    {
+      // (a case with two list mutations is counted under its own heading: either of them may be the reason for a rejection)
+      const std::string w = g_list_log.size() == 1 ? g_list_log[0] : "two lists at once";
+      stats().cls("list length | " + w + (o.accepted ? " -> accepted" : " -> rejected"));
+      if (const char* tr = std::getenv("VERIF_C17_TRACE")) // development aid: which case gave which outcome
+        {
+          std::string how = o.how;
+          for (char& ch : how)
+            if (ch == '\n' || ch == '\t')
+              ch = ' ';
+          std::ofstream f(tr, std::ios::app);
+          f << w << (o.accepted ? " -> accepted" : " -> rejected (" + how + ")") << "\t" << c.dump() << "\n";
+        }
+    }
+  if (model_kind >= 0 && o.accepted && natural)
+    stats().cls("accepted object compared with the model of the header text");
+  if (!raw && !mutated && natural && kind == H_SIEMENS_LM)
+    VF_CHECK(o.accepted, "the Siemens list-mode sample header of the distribution is refused by InterfileListmodeHeaderSiemens: ", o.how, ctx);
+  if (!raw && !mutated && natural && (dmode == 0 || dmode == 4) && kind != H_SIEMENS && kind != H_SIEMENS_LM)
     {
       stats().cls("unmutated library header with complete data");
       VF_CHECK(o.accepted, "a header written by the library itself (with a complete data file) is refused: ", o.how, ctx);
@@ -1948,12 +2995,32 @@ fixed_cases(int)
         c["ospec"] = gen_spec(s, 0);
         c["muts"] = json::array();
         c["target"] = natural_target(s, kind);
-        c["sub"] = 0;
+        c["sub"] = kind == H_SIEMENS_LM ? 4 : 0;
         c["dmode"] = 0;
         c["dlen"] = 1;
         c["dseed"] = long(sd);
         v.push_back(c);
       }
+  // every list x {shorter by 1, shorter by 2, longer by 1, longer by 2, empty, same length} of every kind once, deterministically
+  for (int kind = 0; kind < H_NKINDS; ++kind)
+    {
+      std::set<int> done;
+      for (int fam : list_families_of_kind(kind))
+        {
+          if (!done.insert(fam).second)
+            continue;
+          for (int lm = 0; lm < LM_NMODES; ++lm)
+            for (int amount = 1; amount <= ((lm == LM_SHORTER || lm == LM_LONGER) ? 2 : 1); ++amount)
+              {
+                // ("same length" only rewrites the lists that are inserted with the right length: the unmutated headers above are the
+                //  positive control of the others)
+                if (lm == LM_SAME && LIST_FAMILIES[fam].type != 'T' && LIST_FAMILIES[fam].type != 'F')
+                  continue;
+                PrngSrc s(50000 + 1000 * uint64_t(kind) + 20 * uint64_t(fam) + 4 * uint64_t(lm) + uint64_t(amount));
+                v.push_back(gen_list_case(s, kind, fam, lm, amount));
+              }
+        }
+    }
   return v;
 }
 
@@ -1989,9 +3056,9 @@ maybe_write_corpus()
         std::string bytes;
         bytes += char(50);
         bytes += char(15);
-        bytes += char(kind);
+        bytes += char(std::min(kind, 7)); // (raw cases only know 8 kinds; the kind of a raw case is informative)
         bytes += char(target);
-        bytes += char(0);
+        bytes += char(kind == H_SIEMENS_LM ? 4 : 0);
         bytes += char(5); // data file as the header declares
         bytes += char(0);
         bytes += char(64);
